@@ -145,7 +145,7 @@ def replay_failure(job, g, real, extra, hang_probe=False):
         fh.write('# replay for job %s\n# harness %s group %s config %s\n# defines %s\n# failing obligation: %s\n' %
                  (job.name, job.harness, job.group, job.config, ' '.join(defs), f0['description']))
         fh.write('J %s\n' % job.name)
-        for k, v in nondet: fh.write('N %d\n' % v)
+        for k, v in nondet: fh.write('N %s %d\n' % (k, v))
         if heap is not None: fh.write('H ' + ''.join('%02x' % b for b in heap) + '\n')
     out['replay'] = rpath
     out['failing'] = f0['description']
